@@ -26,8 +26,14 @@ OBLIGATIONS = [
        'ids enumerated on separate call sites; only MAME and the VGM dumper are compiled into the verification build; out-of-range shift amounts are masked as on x86'),
     ob('devid', 'harness_devid', 'opn2_setDeviceIdentifier with every unsigned value: 0..15 stored, others refused without effect', 'all 2^32 ids'),
     ob('devid.reset', 'harness_devid', 'the device id (accepted or not) is unchanged by a following opn2_reset', 'all 2^32 ids', defines=['WITH_RESET']),
-    ob('overrides', 'harness_overrides', 'LFO enable/frequency and chip-type overrides (-1 = bank default) are reported by the getters, reach the chip LFO register, and stay in force across opn2_reset / setup re-application (the file-load path) / opn2_setRunAtPcmRate',
-       'all override values (-1,0,1 / -1..7 / -1,0,1) x arbitrary bank defaults x 3 follow-up calls'),
-    ob('hooks', 'harness_hooks', 'loop-start/loop-end callbacks registered through the API are still the ones installed in the sequencer interface after reset, emulator switch, chip-count change, rate-mode change or chip-type change',
-       'one follow-up call out of five'),
 ]
+# one follow-up call per solver run: the five (three) follow-up calls in one run cost 6-13 min (550 k symex steps: every call site carries
+# its own copy of partialReset -> realTime_panic = 16 x 128 noteOff), the single calls run in parallel
+OVR_FOLLOW = ['opn2_reset', 'setup re-application (applySetup, the file-load path)', 'opn2_setRunAtPcmRate(0|1)']
+HOOK_FOLLOW = [('reset', 'opn2_reset'), ('emulator', 'opn2_switchEmulator'), ('numchips', 'opn2_setNumChips(1)'), ('pcmrate', 'opn2_setRunAtPcmRate(1)'), ('chiptype', 'opn2_setChipType(1)')]
+for k, nm in enumerate(('reset', 'applysetup', 'pcmrate')):
+    OBLIGATIONS.append(ob('overrides.' + nm, 'harness_overrides', 'LFO enable/frequency and chip-type overrides (-1 = bank default) are reported by the getters, reach the chip LFO register, and stay in force across ' + OVR_FOLLOW[k],
+                          'all override values (-1,0,1 / -1..7 / -1,0,1) x arbitrary bank defaults; follow-up call: ' + OVR_FOLLOW[k], defines=['FOLLOW=%d' % k]))
+for k, (nm, call) in enumerate(HOOK_FOLLOW):
+    OBLIGATIONS.append(ob('hooks.' + nm, 'harness_hooks', 'loop-start/loop-end callbacks registered through the API are still the ones installed in the sequencer interface after ' + call,
+                          'follow-up call: ' + call, defines=['FOLLOW=%d' % k]))
